@@ -1551,6 +1551,10 @@ def run(prop, tier):
             ([("c06h", {"n": n_, "fail": k_}, {}) for (n_, k_) in ([(130, 0), (130, 129), (257, 5), (257, 200)] if tier == "quick" else [(130, 0), (130, 64), (130, 129), (257, 5), (257, 128), (257, 256), (513, 1), (513, 300)])] if "B" in part else []) + \
             ([("c06i", {"cpus": n_, "fail": f_}, {}) for n_ in (1, 2, 3) for f_ in (False, True)] if "B" in part else []) + \
             ([("c06g", {"undef": u_, "flag": f_, "args": a_}, {}) for u_ in (None, "base", "lib", "app") for f_ in (False, True) for a_ in (False, True)] if "B" in part else [])
+    if prop == "C05":
+        # every permission mode that carries an execute bit (owner, group or other alone included): the
+        # selected target's command is started, once (the family of C06 part f, without the failing modes)
+        tasks = tasks + [("c06f", {"modes": ms}, {}) for ms in c06f_modes(tier) if all(m & 0o111 for m in ms)]
     if prop == "C04":
         # first in the list: it takes half a minute of waiting, the pool works on the others meanwhile
         tasks = [("c04long", {"hold_s": h_, "slow": s_}, {}) for (h_, s_) in ([(31, 0)] if tier == "quick" else [(31, 0), (31, 1), (65, 0), (125, 2)])] + tasks
